@@ -42,7 +42,17 @@ func runSolver(s solverSpec, file string, timeout int) (verdict, out string, sec
 	return runSolverCtx(context.Background(), s, file, timeout)
 }
 
+// cpuSlots bounds the number of solver processes running at once (one per core), so that racing
+// several solvers on one obligation never starves the others of the CPU time their limit assumes.
+var cpuSlots = make(chan struct{}, 16)
+
 func runSolverCtx(parent context.Context, s solverSpec, file string, timeout int) (verdict, out string, secs float64) {
+	select {
+	case cpuSlots <- struct{}{}:
+	case <-parent.Done():
+		return "timeout", "cancelled before start", 0
+	}
+	defer func() { <-cpuSlots }()
 	ctx, cancel := context.WithTimeout(parent, time.Duration(timeout+5)*time.Second)
 	defer cancel()
 	a := s.args(file, timeout)
@@ -106,30 +116,23 @@ func solve1(o *Obligation, dir string, timeout int, all bool, wantModel bool) *S
 	file := filepath.Join(dir, sanitizeFile(o.ID)+".smt2")
 	os.WriteFile(file, []byte(q), 0o644)
 	res := &SolveResult{File: file, Verdict: "unknown"}
-	if all {
-		// thorough cross-check: every solver on every obligation, sequentially
+	crossCheck := func(res *SolveResult) *SolveResult {
+		// thorough tier: the solvers that did not decide get a short second opinion; a definite
+		// answer that contradicts the verdict is reported as an error (never as a pass)
+		if !all || (res.Verdict != "unsat" && res.Verdict != "sat") {
+			return res
+		}
 		for _, s := range solvers {
-			v, out, secs := runSolver(s, file, timeout)
-			res.Total += secs
-			res.Tried = append(res.Tried, fmt.Sprintf("%s:%s:%.2fs", s.name, v, secs))
-			if v == "unsat" || v == "sat" {
-				if res.Verdict == "unsat" || res.Verdict == "sat" {
-					if res.Verdict != v {
-						res.Verdict = "error"
-						res.Output = "solver disagreement: " + strings.Join(res.Tried, " ")
-						return res
-					}
-					continue
-				}
-				res.Verdict, res.Solver, res.Seconds = v, s.name, secs
-				if v == "sat" {
-					res.Model = out
-				}
+			if s.name == res.Solver {
 				continue
 			}
-			if res.Verdict != "unsat" && res.Verdict != "sat" {
-				res.Verdict = v
-				res.Output = trunc(out, 2000)
+			v, _, secs := runSolver(s, file, 20)
+			res.Total += secs
+			res.Tried = append(res.Tried, fmt.Sprintf("%s:cross:%s:%.2fs", s.name, v, secs))
+			if (v == "unsat" || v == "sat") && v != res.Verdict {
+				res.Verdict = "error"
+				res.Output = "solver disagreement: " + strings.Join(res.Tried, " ")
+				return res
 			}
 		}
 		return res
@@ -147,7 +150,7 @@ func solve1(o *Obligation, dir string, timeout int, all bool, wantModel bool) *S
 		if v == "sat" {
 			res.Model = out
 		}
-		return res
+		return crossCheck(res)
 	}
 	res.Verdict, res.Output = v, trunc(out, 2000)
 	if o.exclude != nil || t1 == timeout {
@@ -181,7 +184,7 @@ func solve1(o *Obligation, dir string, timeout int, all bool, wantModel bool) *S
 				}
 			}
 			cancel()
-			return res
+			return crossCheck(res)
 		}
 		if res.Verdict != "timeout" {
 			res.Verdict, res.Output = a.v, trunc(a.out, 2000)
